@@ -481,6 +481,8 @@ def compare(case, out, model):
         cfg = (f"n={case['n']} batch_size={case['bs']} epochs={case['ep']} max_iter={case['mi']} "
                f"stops={case['stops']}")
         v += _cmp_fit("fit-torch", out, model, cfg)
+        if any("/slices/" in item[0] or "/validation/" in item[0] for item in v):
+            return v          # partial_fit's acceptance was only predicted for the documented slices
         if out.get("pf_error"):
             v.append((f"{PID}/partial_fit/accepts/raised", f"{cfg}: partial_fit raised on a slice sequence it should "
                       f"accept: {out['pf_error']}", "partial_fit accepts slices with the target type of the whole",
